@@ -25,6 +25,7 @@
 //!   R19 `opt.or_else(|| B)` / `unwrap_or_else(|| B)` / `ok_or_else(|| E)` -> `match`
 //!   R20 `M.entry(K).or_default().push(V)` (push_back / insert; or_insert_with(Vec::new) ..) -> `vx_entry_or_default_push(&mut M, K, V)` (prelude/entry.vrs)
 //!   R3  `opt.is_some_and(|x| B)` -> `match`      R21 `a |= b` / `a &= b` on bools -> `{ let t = b; a = a || t; }`
+//!   R23 calls to private helpers of the same impl/file that the unit does not put under contract (no generics, no return/?) are inlined
 //!   R11 reference patterns in `for` / closure parameters / `Some(&x)` -> bind + deref
 //!   RS  pinned statement replacement   (request: replace_stmt)
 //!   RE  pinned expression replacement  (request: replace_expr)
@@ -103,6 +104,12 @@ struct ItemReq {
     keeparms: Vec<String>,
     #[serde(default)]
     havoc: Vec<String>,
+    /// R23: names of the functions the unit itself provides (//@fn or //@stub): calls to OTHER private helpers of the same
+    /// impl / file are inlined (a helper extracted by a refactoring must not leave the caller without a contract)
+    #[serde(default)]
+    known_fns: Vec<String>,
+    #[serde(default)]
+    no_inline: bool,
     /// R16: names of local HashSet<Copy> values iterated by value (`for x in NAME`)
     #[serde(default)]
     setiter: Vec<String>,
@@ -1142,6 +1149,216 @@ impl VisitMut for TailCollect {
     fn visit_expr_closure_mut(&mut self, _c: &mut ExprClosure) {}
 }
 
+
+// ---------------------------------------------------------------------------------------------
+// R23: inlining of private helpers that are not under contract
+// ---------------------------------------------------------------------------------------------
+struct HasReturnOrTry {
+    found: bool,
+}
+impl<'ast> syn::visit::Visit<'ast> for HasReturnOrTry {
+    fn visit_expr(&mut self, e: &'ast Expr) {
+        match e {
+            Expr::Return(_) | Expr::Try(_) => self.found = true,
+            Expr::Closure(_) => {}
+            _ => syn::visit::visit_expr(self, e),
+        }
+    }
+    fn visit_item(&mut self, _i: &'ast Item) {}
+}
+struct CallsName<'a> {
+    name: &'a str,
+    found: bool,
+}
+impl<'a, 'ast> syn::visit::Visit<'ast> for CallsName<'a> {
+    fn visit_expr_method_call(&mut self, m: &'ast ExprMethodCall) {
+        if m.method == self.name {
+            self.found = true;
+        }
+        syn::visit::visit_expr_method_call(self, m);
+    }
+    fn visit_expr_call(&mut self, c: &'ast ExprCall) {
+        if let Expr::Path(p) = &*c.func {
+            if p.path.segments.last().map(|s| s.ident == self.name).unwrap_or(false) {
+                self.found = true;
+            }
+        }
+        syn::visit::visit_expr_call(self, c);
+    }
+}
+
+#[derive(Clone)]
+struct Helper {
+    has_self: bool,
+    params: Vec<Ident>,
+    tys: Vec<Type>,
+    block: Block,
+}
+
+/// helpers of the same impl (methods) and of the same file (free fns) that can be inlined: no generics, identifier
+/// parameters, no `return` / `?` in the body, not recursive
+fn collect_helpers(items: &[Item], self_ty: Option<&str>) -> BTreeMap<String, Helper> {
+    let mut out = BTreeMap::new();
+    let mut add = |sig: &Signature, block: &Block, is_method: bool| {
+        if !sig.generics.params.is_empty() || sig.asyncness.is_some() || sig.unsafety.is_some() {
+            return;
+        }
+        let mut has_self = false;
+        let mut params = Vec::new();
+        let mut tys = Vec::new();
+        for a in &sig.inputs {
+            match a {
+                FnArg::Receiver(r) => {
+                    if r.reference.is_none() {
+                        return; // by-value self: moving semantics, not inlined
+                    }
+                    has_self = true;
+                }
+                FnArg::Typed(t) => match &*t.pat {
+                    Pat::Ident(pi) if pi.by_ref.is_none() && pi.subpat.is_none() => {
+                        if t.ty.to_token_stream().to_string().contains('\'') {
+                            return; // named lifetimes in a parameter type: not inlined
+                        }
+                        params.push(pi.ident.clone());
+                        tys.push((*t.ty).clone());
+                    }
+                    _ => return,
+                },
+            }
+        }
+        if !is_method && has_self {
+            return;
+        }
+        let mut h = HasReturnOrTry { found: false };
+        syn::visit::Visit::visit_block(&mut h, block);
+        if h.found {
+            return;
+        }
+        let name = sig.ident.to_string();
+        let mut c = CallsName { name: &name, found: false };
+        syn::visit::Visit::visit_block(&mut c, block);
+        if c.found {
+            return;
+        }
+        out.insert(name, Helper { has_self, params, tys, block: block.clone() });
+    };
+    for it in items {
+        match it {
+            Item::Fn(f) => add(&f.sig, &f.block, false),
+            Item::Impl(im) if im.trait_.is_none() => {
+                if let Some(t) = self_ty {
+                    if type_name(&im.self_ty) == t {
+                        for ii in &im.items {
+                            if let ImplItem::Fn(f) = ii {
+                                add(&f.sig, &f.block, true);
+                            }
+                        }
+                    }
+                }
+            }
+            _ => {}
+        }
+    }
+    out
+}
+
+struct Inliner<'a> {
+    helpers: &'a BTreeMap<String, Helper>,
+    known: &'a [String],
+    self_ty: Option<String>,
+    n: u32,
+    depth: u32,
+    uniq: u32,
+}
+impl<'a> Inliner<'a> {
+    fn expand(&mut self, h: &Helper, args: Vec<Expr>) -> Expr {
+        self.uniq += 1;
+        let u = self.uniq;
+        let tmps: Vec<Ident> = (0..args.len()).map(|i| Ident::new(&format!("__vx_arg{}_{}", u, i), Span::call_site())).collect();
+        let stmts = &h.block.stmts;
+        // the declared parameter types are kept so that the coercions of the call (`&String` -> `&str`, implicit reborrow of a
+        // `&mut` variable, ..) still happen.  Arguments that are plain variables are bound directly (a typed `let` reborrows a
+        // reference instead of moving it); anything else is evaluated into a temporary first, in argument order.
+        let mut pre: Vec<Stmt> = Vec::new();
+        let mut binds: Vec<Stmt> = Vec::new();
+        let mut bound: Vec<String> = Vec::new();
+        for (i, a) in args.iter().enumerate() {
+            let p = &h.params[i];
+            let t = &h.tys[i];
+            let simple = match a {
+                Expr::Path(ep) => ep.path.get_ident().map(|id| !bound.iter().any(|b| id == b)).unwrap_or(false),
+                _ => false,
+            };
+            if simple {
+                binds.push(parse_quote!(let #p: #t = #a;));
+            } else {
+                let tmp = &tmps[i];
+                pre.push(parse_quote!(let #tmp = #a;));
+                binds.push(parse_quote!(let #p: #t = #tmp;));
+            }
+            bound.push(p.to_string());
+        }
+        let mut e: Expr = parse_quote!({
+            #(#pre)*
+            #(#binds)*
+            #(#stmts)*
+        });
+        // helpers calling helpers
+        if self.depth < 3 {
+            self.depth += 1;
+            self.visit_expr_mut(&mut e);
+            self.depth -= 1;
+        }
+        e
+    }
+}
+impl<'a> VisitMut for Inliner<'a> {
+    fn visit_expr_mut(&mut self, e: &mut Expr) {
+        visit_mut::visit_expr_mut(self, e);
+        let mut repl: Option<Expr> = None;
+        match e {
+            Expr::MethodCall(mc) => {
+                let name = mc.method.to_string();
+                let on_self = matches!(&*mc.receiver, Expr::Path(p) if p.path.is_ident("self"));
+                if on_self && mc.turbofish.is_none() && !self.known.iter().any(|k| *k == name) {
+                    if let Some(h) = self.helpers.get(&name) {
+                        if h.has_self && h.params.len() == mc.args.len() {
+                            let h = h.clone();
+                            let args: Vec<Expr> = mc.args.iter().cloned().collect();
+                            repl = Some(self.expand(&h, args));
+                        }
+                    }
+                }
+            }
+            Expr::Call(c) => {
+                if let Expr::Path(p) = &*c.func {
+                    let segs: Vec<String> = p.path.segments.iter().map(|s| s.ident.to_string()).collect();
+                    let name = segs.last().cloned().unwrap_or_default();
+                    let qual_ok = match segs.len() {
+                        1 => true,
+                        2 => segs[0] == "Self" || Some(&segs[0]) == self.self_ty.as_ref(),
+                        _ => false,
+                    };
+                    if qual_ok && !self.known.iter().any(|k| *k == name) {
+                        if let Some(h) = self.helpers.get(&name) {
+                            if !h.has_self && h.params.len() == c.args.len() {
+                                let h = h.clone();
+                                let args: Vec<Expr> = c.args.iter().cloned().collect();
+                                repl = Some(self.expand(&h, args));
+                            }
+                        }
+                    }
+                }
+            }
+            _ => {}
+        }
+        if let Some(r) = repl {
+            *e = r;
+            self.n += 1;
+        }
+    }
+}
+
 // ---------------------------------------------------------------------------------------------
 // R7: lock elision (a lock is modelled as exclusive access; see DESIGN §2.2)
 // ---------------------------------------------------------------------------------------------
@@ -1571,18 +1788,71 @@ fn do_fn(items: &[Item], req: &ItemReq, feats: &[String]) -> std::result::Result
     let mut block = found.block.clone();
     let mut counts: BTreeMap<String, u32> = BTreeMap::new();
 
-    // anchors are matched against the ORIGINAL statements (before any rewrite)
+    // pass A: anchors and pinned replacements on the ORIGINAL statements
     let mut am = Marker { do_loops: false, next_loop: 0, kinds: vec![], anchors: req.anchors.clone(), found: BTreeMap::new() };
     am.visit_block_mut(&mut block);
-    // pinned replacements first (they are matched against the original token text)
     let mut rp = Replacer {
         stmt: req.replace_stmt.iter().cloned().map(|r| (r, 0)).collect(),
         expr: req.replace_expr.iter().cloned().map(|r| (r, 0)).collect(),
         err: None,
     };
     rp.visit_block_mut(&mut block);
-    if let Some(e) = rp.err {
+    if let Some(e) = rp.err.take() {
         return Err(e);
+    }
+    // R23: private helpers of the same impl / file that the unit does not provide are inlined, so that a helper extracted by a
+    // refactoring leaves the caller's statements where contracts, anchors and loop ordinals expect them
+    let mut inlined = 0;
+    if !req.no_inline && !req.sig_only && !req.known_fns.is_empty() {
+        let self_ty: Option<String> = if req.path.starts_with('<') {
+            req.path.find(" for ").and_then(|i| req.path[i + 5..].split('>').next().map(|x| x.trim().to_string()))
+        } else {
+            req.path.rsplit_once("::").map(|(t, _)| t.to_string())
+        };
+        let helpers = collect_helpers(items, self_ty.as_deref());
+        let own = req.path.rsplit("::").next().unwrap_or("").to_string();
+        let mut known = req.known_fns.clone();
+        known.push(own);
+        let mut inl = Inliner { helpers: &helpers, known: &known, self_ty, n: 0, depth: 0, uniq: 0 };
+        inl.visit_block_mut(&mut block);
+        inlined = inl.n;
+        if inl.n > 0 {
+            counts.insert("R23.inline_helper".to_string(), inl.n);
+        }
+    }
+    if inlined > 0 {
+        // pass B: anchors and pins that were not found before may sit in an inlined helper body now
+        let missing_a: Vec<Anchor> = req.anchors.iter().filter(|a| am.found.get(&a.id).copied().unwrap_or(0) == 0).cloned().collect();
+        if !missing_a.is_empty() {
+            let mut am2 = Marker { do_loops: false, next_loop: 0, kinds: vec![], anchors: missing_a, found: BTreeMap::new() };
+            am2.visit_block_mut(&mut block);
+            for (k, v) in am2.found {
+                am.found.insert(k, v);
+            }
+        }
+        let miss_s: Vec<(Replace, u32)> = rp.stmt.iter().filter(|x| x.1 == 0).cloned().collect();
+        let miss_e: Vec<(Replace, u32)> = rp.expr.iter().filter(|x| x.1 == 0).cloned().collect();
+        if !miss_s.is_empty() || !miss_e.is_empty() {
+            let mut rp2 = Replacer { stmt: miss_s, expr: miss_e, err: None };
+            rp2.visit_block_mut(&mut block);
+            if let Some(e) = rp2.err.take() {
+                return Err(e);
+            }
+            for (r2, n2) in rp2.stmt.iter() {
+                for (r, n) in rp.stmt.iter_mut() {
+                    if r.text == r2.text && r.with == r2.with {
+                        *n += *n2;
+                    }
+                }
+            }
+            for (r2, n2) in rp2.expr.iter() {
+                for (r, n) in rp.expr.iter_mut() {
+                    if r.text == r2.text && r.with == r2.with {
+                        *n += *n2;
+                    }
+                }
+            }
+        }
     }
     let mut group_hits: BTreeMap<u32, u32> = BTreeMap::new();
     for (r, n) in rp.stmt.iter().chain(rp.expr.iter()) {
@@ -1612,7 +1882,6 @@ fn do_fn(items: &[Item], req: &ItemReq, feats: &[String]) -> std::result::Result
     if !rp.expr.is_empty() {
         counts.insert("RE.replace_expr".into(), rp.expr.iter().map(|x| x.1).sum());
     }
-
     let mut rw = Rw { setiter: req.setiter.clone(), wrote_lock: false, refpat: 0, retain: req.retain.clone().unwrap_or_else(|| "vec".into()), feats, counts, err: None, fresh_by_kind: BTreeMap::new(), no: req.no_rewrite.clone() };
     // signature: strip attrs on params; a stub has no body, so the `mut` binding mode of by-value parameters is dropped
     for a in sig.inputs.iter_mut() {
